@@ -325,6 +325,22 @@ func GenUnmarshalFamily(w *Writer, r *Rng, t Tier) error {
 			if ty.Kind == "slice" && ty.Elem.Kind == "str" && cr.Chance(1, 3) {
 				base.Set(reflect.Append(base, reflect.ValueOf("old")))
 			}
+			// tagged pointer fields that already point somewhere: Unmarshal must allocate fresh
+			// pointers, never write through the caller's
+			type keep struct {
+				ptr  reflect.Value
+				dump string
+			}
+			var kept []keep
+			if ty.Kind == "struct" && cr.Chance(1, 3) {
+				for fi, f := range ty.Fields {
+					if f.Ty.Kind == "ptr" && f.HasTag {
+						pv := reflect.New(f.Ty.Elem.Type())
+						base.Field(fi).Set(pv)
+						kept = append(kept, keep{pv, valSexp(pv.Elem())})
+					}
+				}
+			}
 			curSexp := valSexp(base)
 			var target interface{}
 			fam := "unm"
@@ -362,6 +378,11 @@ func GenUnmarshalFamily(w *Writer, r *Rng, t Tier) error {
 					}
 				}()
 				err := xsel.Unmarshal(ToResult(doc.Dump, result), target, env.Settings(doc.Dump)...)
+				for _, kp := range kept {
+					if valSexp(kp.ptr.Elem()) != kp.dump {
+						return "wrote-through-a-pointer-the-caller-owned"
+					}
+				}
 				if err != nil {
 					return "err"
 				}
